@@ -576,8 +576,12 @@ def main(argv=None):
         print(f"MACHINERY-ERROR check={a.pid}: {ex}", file=sys.stderr)
         shutil.rmtree(chk.scratch, ignore_errors=True)
         return 2
-    except Exception:
+    except Exception as ex:  # noqa: BLE001
         traceback.print_exc()
+        if chk.violations:
+            # as above: verdicts already given on implementation data stand
+            chk.diag(f"harness step failed after violations were found: {type(ex).__name__}: {str(ex)[:300]}")
+            return chk.finish()
         print(f"MACHINERY-ERROR check={a.pid}: unexpected exception in harness", file=sys.stderr)
         shutil.rmtree(chk.scratch, ignore_errors=True)
         return 2
